@@ -139,6 +139,8 @@ class _Proxy:
 def _map(path):
     """Relative paths live in the simulated working directory when the World has one."""
     w = CURRENT
+    if w is not None and isinstance(path, str) and path.startswith("//") and path.lstrip("/").startswith("simfs/"):
+        return "/" + path.lstrip("/")  # several leading slashes name the root, as on Linux
     if w is not None and w.sim_cwd:
         if isinstance(path, _os.PathLike):
             path = _os.fspath(path)
